@@ -690,10 +690,15 @@ def shrink(ctx, binp, e, budget=40):
 
 def judge(ctx, binp, pool, rejected):
     seen = set()
+    t_start = time.time()
+    budget = 240 if ctx.quick else 900      # seconds spent re-running / shrinking; at least one key is judged
     for idx, line, inv in rejected:
         e = pool[idx]
         key, ci = failing_key(e, line)
         if key in seen:
+            continue
+        if seen and time.time() - t_start > budget:
+            ctx.extra["rejected_keys_not_judged_for_lack_of_time"] = ctx.extra.get("rejected_keys_not_judged_for_lack_of_time", 0) + 1
             continue
         seen.add(key)
         again = Exe(e.cmds, e.source)
